@@ -29,7 +29,9 @@ THEOREMS = [P_ + n for n in (
     'entry_eq_rectangle_average', 'unb_cv_eq_balanced', 'unb_poisson_cv_partial',
     'calc_one_eq_entry')]
 RULE = ('one PRNG; a case = dataset (3-12 observations, 2-5 conditions, 2-6 channels, small '
-        'dyadic values, int/float dtype, C/F order, int or str labels in arbitrary order) x design '
+        'dyadic values, int/float dtype, C/F order; condition and fold labels are opaque values '
+        'of 8 kinds: small / negative / large ints, floats with fractional parts (float64, '
+        'float32), str arrays, lists of np.str_, bools; arbitrary order) x design '
         '(single / unbalanced counts / fold-balanced / random folds) x missing-channel mask (none / '
         'whole channels / per observation / whole observation / disjoint supports) x method (6) x '
         'weighting (2) x precision (none / SPD) x fold descriptor (none / given) (+ one condition '
@@ -41,7 +43,10 @@ BRANCHES = ['method:euclidean', 'method:correlation', 'method:mahalanobis', 'met
             'cv:given', 'cv:none', 'mask:none', 'mask:whole', 'mask:perobs', 'mask:obs',
             'mask:disjoint', 'dtype:int', 'dtype:float', 'order:C', 'order:F',
             'design:single', 'design:unbalanced', 'design:foldbal', 'noise:given',
-            'labels:str', 'one:cross', 'one:self', 'nan-entry', 'balanced-compared']
+            'one:cross', 'one:self', 'nan-entry', 'balanced-compared']
+BRANCHES += ['cond:' + k for k in ('int', 'negint', 'bigint', 'float', 'float32', 'str', 'npstr', 'bool')]
+BRANCHES += ['fold:' + k for k in ('int', 'negint', 'bigint', 'float', 'float32', 'str', 'npstr', 'bool')]
+BRANCHES += ['fold:collide-int']
 ASSUMPTIONS = [
     'float64 evaluation of either side is within 1e-9 relative (+1e-10 x scale absolute) of the '
     'exact value on the generated small dyadic inputs',
@@ -62,10 +67,38 @@ EXACT = {'euclidean', 'mahalanobis', 'crossnobis'}
 
 # ---------------------------------------------------------------- generation
 
+LABEL_KINDS = ['int', 'negint', 'bigint', 'float', 'float32', 'str', 'npstr', 'bool']
+
+
+def _label_kind(rng, n, force=None):
+    """kind of a descriptor with n distinct values (bool only has two)"""
+    if force and (force != 'bool' or n <= 2):
+        return force
+    kinds = [k for k in LABEL_KINDS if k != 'bool' or n <= 2]
+    return rng.choice(kinds)
+
+
 def _labels(rng, n, kind):
+    """n distinct label values of a kind; labels are opaque (only equality matters), so
+    the pools contain values that collide under int(), lower(), bool() or float32 rounding"""
     if kind == 'int':
         return rng.sample(range(0, 40), n)
-    return rng.sample(['a', 'b', 'zz', 'm1', 'cat', 'dog', 'B', 'x9', 'face', 'k'], n)
+    if kind == 'negint':
+        return rng.sample(range(-20, 6), n)
+    if kind == 'bigint':
+        return rng.sample([10 ** 12, 10 ** 12 + 1, 2 ** 40, 2 ** 31, 2 ** 31 - 1, 2 ** 32, 7, 0,
+                           -2 ** 33, 999999999999], n)
+    if kind in ('float', 'float32'):
+        # dyadic, several values per integer part (1.0, 1.25, 1.5 ...), also negative / zero
+        if n <= 4 and rng.random() < 0.6:       # all in one unit interval: equal under int()
+            b = rng.choice([0, 1, 2, -3, 7])
+            return [b + q for q in rng.sample([0.0, 0.25, 0.5, 0.75], n)]
+        return rng.sample([0.0, 0.25, 0.5, 0.75, 1.0, 1.25, 1.5, 1.75, 2.0, 2.5, -0.5, -0.25,
+                           -1.5, 3.0, 3.5], n)
+    if kind == 'bool':
+        return rng.sample([False, True], n)
+    return rng.sample(['a', 'A', 'b', 'zz', 'm1', 'cat', 'dog', 'B', 'x9', 'face', 'k', '1', '1.0',
+                       '10', ' a'], n)
 
 
 def _gen_case(rng, force=None):
@@ -80,8 +113,11 @@ def _gen_case(rng, force=None):
     cv_method = method in ('crossnobis', 'poisson_cv')
     if cv_method and design == 'single':
         design = 'foldbal1'
-    lab_kind = rng.choice(['int', 'int', 'str'])
+    if force.get('cond_kind') == 'bool':
+        n_cond = 2
+    lab_kind = _label_kind(rng, n_cond, force.get('cond_kind'))
     conds = _labels(rng, n_cond, lab_kind)
+    fold_kind = None
     obs = []                                   # (cond label, fold label or None)
     folds_used = None
     if design == 'single':
@@ -94,8 +130,9 @@ def _gen_case(rng, force=None):
         if len({c for c, _ in obs}) < 2:
             obs = [(conds[0], None), (conds[1], None), (conds[0], None)]
     elif design in ('foldbal', 'foldbal1'):
-        nf = rng.randint(2, 3)
-        fl = _labels(rng, nf, rng.choice(['int', 'str']))
+        nf = 2 if force.get('fold_kind') == 'bool' else rng.randint(2, 3)
+        fold_kind = _label_kind(rng, nf, force.get('fold_kind'))
+        fl = _labels(rng, nf, fold_kind)
         for c in conds:
             r = 1 if design == 'foldbal1' else rng.randint(1, 2)
             for f in fl:
@@ -105,7 +142,9 @@ def _gen_case(rng, force=None):
             obs = [o for o in obs if o[0] != dropc]
         folds_used = True
     else:   # random folds
-        fl = _labels(rng, rng.randint(2, 3), 'int')
+        nf = 2 if force.get('fold_kind') == 'bool' else rng.randint(2, 3)
+        fold_kind = _label_kind(rng, nf, force.get('fold_kind'))
+        fl = _labels(rng, nf, fold_kind)
         for c in conds:
             for _ in range(rng.randint(1, 3)):
                 obs.append((c, rng.choice(fl)))
@@ -171,6 +210,7 @@ def _gen_case(rng, force=None):
         'folds': folds, 'method': method, 'weighting': weighting, 'noise': noise,
         'noise_scale': noise_scale, 'lam': rng.choice([1.0, 0.5, 2.0]),
         'pw': rng.choice([0.1, 0.25, 1.0]), 'design': design, 'mask': mask, 'one': None,
+        'cond_kind': lab_kind, 'fold_kind': fold_kind if folds is not None else None,
     }
     uniq = orc.first_appearance(labels)
     if rng.random() < 0.6:
@@ -210,6 +250,14 @@ def generate(rng, tier):
     for method in METHODS:
         yield _gen_case(rng, {'method': method, 'mask': 'none', 'weighting': 'number',
                               'design': 'foldbal1' if method in ('crossnobis', 'poisson_cv') else 'single'})
+        k += 1
+    for kind in LABEL_KINDS:
+        yield _gen_case(rng, {'cond_kind': kind, 'method': rng.choice(METHODS)})
+        for method in ('crossnobis', 'poisson_cv', 'euclidean'):
+            yield _gen_case(rng, {'fold_kind': kind, 'method': method, 'mask': 'none',
+                                  'weighting': 'number',
+                                  'design': 'foldbal1' if method == 'poisson_cv' else 'foldbal'})
+            k += 1
         k += 1
     while k < n:
         yield _gen_case(rng)
@@ -379,8 +427,13 @@ def features(case, impl):
     br.append('design:' + {'foldbal1': 'foldbal', 'randfolds': 'unbalanced'}.get(d, d))
     if case['noise'] is not None:
         br.append('noise:given')
-    if any(isinstance(l, str) for l in case['labels']):
-        br.append('labels:str')
+    br.append('cond:' + orc.kind_of(case, 'cond'))
+    if case['folds'] is not None:
+        br.append('fold:' + orc.kind_of(case, 'fold'))
+        fs = set(case['folds'])
+        if all(isinstance(f, (int, float)) and not isinstance(f, bool) for f in fs) and \
+                len({int(f) for f in fs}) < len(fs):
+            br.append('fold:collide-int')      # distinct folds that a cast to int would merge
     if case.get('one'):
         br.append('one:self' if case['one'][0] == case['one'][1] else 'one:cross')
     if impl and 'rdm' in impl:
@@ -392,6 +445,8 @@ def features(case, impl):
             'has_missing': has_missing, 'noise_given': case['noise'] is not None,
             'design': case['design'], 'mask': case['mask'], 'dtype': case['dtype'],
             'order': case['order'], 'n_obs': len(case['labels']),
+            'cond_kind': orc.kind_of(case, 'cond'),
+            'fold_kind': orc.kind_of(case, 'fold') if case['folds'] is not None else 'none',
             'n_cond': len(set(case['labels'])), 'n_channel': len(case['vals'][0]),
             'branches': br}
 
